@@ -73,6 +73,9 @@ RegexSearch(r, buf) ==
       [] r = "QnotZ" ->     \* (?<!Z)Q : a Q not preceded, INSIDE THE SEARCH BUFFER, by a Z
             LET S == {i \in 0..(Len(buf) - 1) : buf[i + 1] = 81 /\ (i = 0 \/ buf[i] # 90)} IN
             IF S = {} THEN NoMatch ELSE [found |-> TRUE, s |-> MinOf(S), e |-> MinOf(S) + 1]
+      [] r = "xI" ->        \* re.compile(b'x', re.IGNORECASE): a literal text whose meaning is in the FLAGS it was compiled with
+            LET S == {i \in 0..(Len(buf) - 1) : buf[i + 1] \in {88, 120}} IN
+            IF S = {} THEN NoMatch ELSE [found |-> TRUE, s |-> MinOf(S), e |-> MinOf(S) + 1]
       [] r = "caretX" ->    \* ^X : only at the very start of the search buffer
             IF Len(buf) >= 1 /\ buf[1] = X THEN [found |-> TRUE, s |-> 0, e |-> 1] ELSE NoMatch
       [] OTHER -> NoMatch
